@@ -191,14 +191,18 @@ class FlatfileMapping(MappingInterface):
         return '%s:%s\n' % (self._canonicalId(id), s)
 
     def add(self, s):
-        line = self._joinLine(self.currentId, s)
+        id = self.currentId
+        line = self._joinLine(id, s)
         fd = open(self.filename, 'r+')
         try:
+            # The counter first: if we die between the two writes, an id is
+            # skipped.  The other way round, the record was there with the
+            # old counter, and the next add() gave its id to a second record.
+            self._incrementCurrentId(fd)
             fd.seek(0, 2) # End.
             fd.write(line)
-            return self.currentId
+            return id
         finally:
-            self._incrementCurrentId(fd)
             fd.close()
 
     def get(self, id):
@@ -218,14 +222,19 @@ class FlatfileMapping(MappingInterface):
     #     maximum id remains accurate if this is some value we've never given
     #     out -- i.e., self.maxid = max(self.maxid, id) or something.
     def set(self, id, s):
-        strLine = self._joinLine(id, s)
-        try:
-            fd = open(self.filename, 'r+')
-            self.remove(id, fd)
-            fd.seek(0, 2) # End.
-            fd.write(strLine)
-        finally:
-            fd.close()
+        # Through an AtomicFile, like vacuum(): blanking the old record in
+        # place and appending the new one afterwards lost the record if we
+        # died in between.
+        strId = self._canonicalId(id)
+        infd = open(self.filename)
+        outfd = utils.file.AtomicFile(self.filename,makeBackupIfSmaller=False)
+        outfd.write(infd.readline()) # First line, nextId.
+        for line in infd:
+            if self._splitLine(line)[0] != strId:
+                outfd.write(line)
+        outfd.write(self._joinLine(id, s))
+        infd.close()
+        outfd.close()
 
     def remove(self, id, fd=None):
         fdWasNone = fd is None
